@@ -29,13 +29,20 @@ def run(ctx):
     s = E.summary(mcreate)
     ctx.check(s["writes"] == {(1, (m.market_books_field(), "[]", m.f_orders))} and not s["unknown"], "effects", "Market::create_order", ctx.loc(mcreate),
               "Market::create_order writes only order_books[asset].orders", "Market::create_order writes %s" % sorted(s["writes"]))
+    creation_outcome_rules(ctx, m)
+    env_rules(ctx, m, (("Env", m.env_fn, "order_book"), ("MarketEnv", m.menv_fn, "market")))
+
+
+def creation_outcome_rules(ctx, m, rule="effects"):
+    """create_order decides nothing about the order's outcome"""
+    create = m.book_fn("create_order")
     # the record a submission creates is a NEW order and nothing else about it is decided before the step: create_order never
     # writes a status / end time itself, and the constructors it stores start every order as New
     for S in ("Bid", "Ask"):
         cv = m.sv(create, S)
         live = cv.cfg.reach_from(0)
         sw = [w for w in cv.writes() if w.b in live and w.field in ("status", "end_time", "arr_time") and w.owner.endswith("Order")]
-        ctx.check(not sw, "effects", "create_order|no-outcome|" + S, sw[0].loc() if sw else ctx.loc(create),
+        ctx.check(not sw, rule, "create_order|no-outcome|" + S, sw[0].loc() if sw else ctx.loc(create),
                   "create_order decides nothing about the order's outcome (no status / end-time / arrival-time write)",
                   "create_order already writes %s: the instruction's outcome is visible before the step that processes it" % "; ".join(w.text() for w in sw))
     n_ctor = 0
@@ -45,10 +52,9 @@ def run(ctx):
             aggs = [x for x in walk(r) if x[0] == "agg" and x[1] == "adt" and x[2].endswith("Order::Order")]
             st = dict(zip(aggs[0][4], aggs[0][3])).get("status") if aggs else None
             n_ctor += 1
-            ctx.check(st is not None and st[0] == "agg" and st[2].endswith("Status::New"), "effects", "ctor-new|" + cf.name, ctx.loc(cf),
+            ctx.check(st is not None and st[0] == "agg" and st[2].endswith("Status::New"), rule, "ctor-new|" + cf.name, ctx.loc(cf),
                       "Order::%s creates the order with status New" % cf.name, "Order::%s creates the order with status %s" % (cf.name, render(st) if st else "?"))
-    ctx.check(n_ctor == 4, "effects", "ctor-census", "-", "%d order constructors examined" % n_ctor)
-    env_rules(ctx, m, (("Env", m.env_fn, "order_book"), ("MarketEnv", m.menv_fn, "market")))
+    ctx.check(n_ctor == 4, rule, "ctor-census", "-", "%d order constructors examined" % n_ctor)
 
 
 def env_rules(ctx, m, owners, submissions=True):
